@@ -1080,6 +1080,20 @@ def find_function(tree, qual):
     return node
 
 
+def fn_class(spec):
+    """The translator class for one function: `Fn`, or the subclass named by the spec key
+    `'fn_class': 'module:ClassName'` (module under harness/translate_ext/). Extensions ADD rules by overriding
+    `expr` / `cond` / `stmt` and deferring to `super()`; the shared translator itself stays untouched, so the output for
+    every other group is unchanged by construction."""
+    ref = spec.get('fn_class')
+    if not ref:
+        return Fn
+    import importlib
+    modname, clsname = ref.split(':')
+    sys.path.insert(0, HERE)
+    return getattr(importlib.import_module('translate_ext.' + modname), clsname)
+
+
 def translate_group(group):
     """One output file: several functions translated into one Lean module."""
     name = group['name']
@@ -1100,7 +1114,7 @@ def translate_group(group):
             spec.setdefault('patterns', [])
             spec['patterns'] = spec['patterns'] + group.get('patterns', [])
             spec['stmt_patterns'] = spec.get('stmt_patterns', []) + group.get('stmt_patterns', [])
-            body = Fn(spec, node).translate()
+            body = fn_class(spec)(spec, node).translate()
             parts.append('/-- %s:%s (line %d) -/' % (f['file'], f['func'], node.lineno))
             parts.append(body)
             parts.append('')
